@@ -6,6 +6,7 @@ import Lean.Data.Json
 import Vicut.Model.Format
 import Vicut.Model.Args
 import Vicut.Model.Linewise
+import Vicut.Model.Reader
 
 open Lean Vicut
 
@@ -77,12 +78,32 @@ def opParseArgv (req : Json) : Json :=
   | .ok o => Json.mkObj [("opts", optsJson o)]
   | .error _ => Json.mkObj [("exit", 1)]
 
+def keyJson (k : KeyEvent) : Json :=
+  let (code, payload) : String × String := match k.code with
+    | .char c => ("Char", String.singleton c)
+    | .f n => ("F", toString n)
+    | .backspace => ("Backspace", "") | .backTab => ("BackTab", "") | .delete => ("Delete", "")
+    | .down => ("Down", "") | .end_ => ("End", "") | .enter => ("Enter", "") | .esc => ("Esc", "")
+    | .home => ("Home", "") | .insert => ("Insert", "") | .left => ("Left", "") | .null => ("Null", "")
+    | .pageDown => ("PageDown", "") | .pageUp => ("PageUp", "") | .right => ("Right", "")
+    | .tab => ("Tab", "") | .up => ("Up", "")
+  Json.arr #[code, payload, k.mods]
+
+/-- `{"op":"keys","bytes":[...],"escaped":false}`: the model of `RawReader::read_key` until `None`. -/
+def opKeys (req : Json) : Json :=
+  let bytes : Bytes := (jarr req "bytes").toList.map (fun j => UInt8.ofNat ((j.getNat?).toOption.getD 0))
+  let (keys, r) := readAll bytes (jbool req "escaped")
+  Json.mkObj [("keys", Json.arr (keys.map keyJson).toArray),
+              ("left", Json.arr (r.bytes.map (fun b => (b.toNat : Json))).toArray),
+              ("escaped", r.escaped)]
+
 def dispatch (req : Json) : Json :=
   match jstr req "op" with
   | "ping" => Json.mkObj [("pong", true)]
   | "format" => opFormat req
   | "lines" => opLines req
   | "parse_argv" => opParseArgv req
+  | "keys" => opKeys req
   | op => Json.mkObj [("err", Json.str s!"unknown op {op}")]
 
 partial def loop (h : IO.FS.Stream) (out : IO.FS.Stream) : IO Unit := do
